@@ -95,7 +95,7 @@ def show_value(v: V) -> str:
 
 
 def grammar(tier: str = "quick") -> List[V]:
-    atoms: List[V] = [K(1), K("s"), K(None), K(True), user("u"), klass("Shape")]
+    atoms: List[V] = [K(1), K("s"), K(None), K(True), user("u"), klass("Shape"), IM.val("class:Handler", "h")]
     inner: List[V] = [lst("e0"), lst("l1", K(1)), lst("l2", K(1), K("s")), dct("d0"), dct("da", (K("a"), K(1))), dct("das", (K("a"), K("s"))),
                       dct("dab", (K("a"), K(1)), (K("b"), K("s"))), dct("d1", (K(1), K("s"))), tup("t2", K(1), K("s")), tup("t0"), st_("s1", K(1)),
                       dct("db", (K("b"), K(2)))]
@@ -149,6 +149,10 @@ def td_to_dict(t: V) -> V:
             return union(*[td_to_dict(a) for a in args])
         return generic(t.fields["origin"].v, *[td_to_dict(a) for a in args])
     return t
+
+
+def kn(k: Any) -> Any:
+    return k.v if isinstance(k, K) else str(k)
 
 
 def _items(d: V) -> List[Tuple[V, V]]:
@@ -358,12 +362,12 @@ def tight(t: V, vs: List[V], any_ok: bool = False) -> Optional[str]:
             have = [dict(pairs_of(v)).get(k_) for v in mine]
             present = [x for x in have if x is not None]
             if not present:
-                return f"key {k_.v!r} occurs in no observed dict"
+                return f"key {kn(k_)!r} occurs in no observed dict"
             is_req = (k_, ft) in req
             if is_req and len(present) != len(mine):
-                return f"key {k_.v!r} is required although an observed dict lacks it"
+                return f"key {kn(k_)!r} is required although an observed dict lacks it"
             if not is_req and len(present) == len(mine):
-                return f"key {k_.v!r} is optional although every observed dict has it"
+                return f"key {kn(k_)!r} is optional although every observed dict has it"
             r = tight(ft, present)
             if r:
                 return r
@@ -380,8 +384,8 @@ def short(t: V) -> str:
         a = t.fields["args"]
         return f"{t.fields['origin'].v}[{', '.join(short(x) for x in a.v)}]" if isinstance(a, K) else f"{t.fields['origin'].v}[?]"
     if isinstance(t, R) and t.kind == "typeddict":
-        r = ", ".join(f"{k_.v}: {short(x)}" for k_, x in _items(t.fields["required"]))
-        o = ", ".join(f"{k_.v}?: {short(x)}" for k_, x in _items(t.fields["optional"]))
+        r = ", ".join(f"{kn(k_)}: {short(x)}" for k_, x in _items(t.fields["required"]))
+        o = ", ".join(f"{kn(k_)}?: {short(x)}" for k_, x in _items(t.fields["optional"]))
         return "TD{" + ", ".join(x for x in (r, o) if x) + "}"
     if isinstance(t, R) and t.kind == "val":
         return show_value(t)
@@ -411,8 +415,8 @@ def canon(t: V) -> str:
             parts = sorted(parts)
         return f"{t.fields['origin'].v}[{', '.join(parts)}]"
     if isinstance(t, R) and t.kind == "typeddict":
-        r = sorted(f"{k_.v}: {canon(x)}" for k_, x in _items(t.fields["required"]))
-        o = sorted(f"{k_.v}?: {canon(x)}" for k_, x in _items(t.fields["optional"]))
+        r = sorted(f"{kn(k_)}: {canon(x)}" for k_, x in _items(t.fields["required"]))
+        o = sorted(f"{kn(k_)}?: {canon(x)}" for k_, x in _items(t.fields["optional"]))
         return "TD{" + ", ".join(r + o) + "}"
     return short(t)
 
